@@ -28,6 +28,8 @@ class get_neighbors_in_bounds:
         # C19 premise P2: every in-grid lattice neighbour exactly once, nothing else
         "C19.P2.members": "forall(lambda i, j: ((i, j) in result) == (in_grid(grid_shape, (i, j)) and lat_adj(coord, (i, j))), None, None)",
         "C19.P2.once": "distinct_rows(result)",
+        # "one always exists on a lattice" (needed so that the uniform draw in the walk cannot fail)
+        "nonempty": "implies(in_grid(grid_shape, coord) and (grid_shape[0] >= 2 or grid_shape[1] >= 2), nrows(result) >= 1)",
     }
     result = T.GuardedRowsT(4, 2)
     props = ["C19", "C01"]
@@ -247,3 +249,94 @@ class gen_dfs_percolation:
     }
     exit_lemmas = ["reach_mono(final(g_dfs_maze), result)"]
     props = ["C01", "C12"]
+
+
+# ----------------------------------------------------------------------------- Wilson
+_MW = "maze_of(connection_list)"
+# every set bit is a real lattice edge (I1) joining two visited cells
+_W_WF = DFS_INV["I1.wf"]
+_W_TREE_OUTER = {
+    "W.shape": "connection_list.shape == (2, grid_shape[0], grid_shape[1]) and visited.shape == (grid_shape[0], grid_shape[1])",
+    "W1.wf": _W_WF,
+    "W2.down": "forall(lambda i, j: implies(connection_list[0, i, j], visited[i, j] and visited[i + 1, j]), None, None)",
+    "W2.right": "forall(lambda i, j: implies(connection_list[1, i, j], visited[i, j] and visited[i, j + 1]), None, None)",
+    "W3.count": "count(connection_list) == count(visited) - 1",
+    "W4.root": "in_grid(grid_shape, g_root) and visited[g_root[0], g_root[1]]",
+    "W4.reach": f"forall(lambda i, j: implies(visited[i, j], reach({_MW}, g_root, (i, j))), (0, grid_shape[0]), (0, grid_shape[1]))",
+    "W5.visited-in-grid": "forall(lambda i, j: implies(visited[i, j], in_grid(grid_shape, (i, j))), None, None)",
+}
+_W_PATH = {
+    "P.nonempty": "len(path) >= 1 and current[0] == path[len(path) - 1][0] and current[1] == path[len(path) - 1][1]",
+    "P.in-grid": "forall(lambda t: in_grid(grid_shape, path[t]), (0, len(path)))",
+    "P.adjacent": "forall(lambda t: lat_adj(path[t], path[t + 1]), (0, len(path) - 1))",
+    "P.simple": "forall(lambda s, t: implies(s < t, path[s][0] != path[t][0] or path[s][1] != path[t][1]), (0, len(path)), (0, len(path)))",
+    "P.unvisited": "forall(lambda t: not visited[path[t][0], path[t][1]], (0, len(path) - 1))",
+}
+
+
+@contract(G, "LatticeMazeGenerators.gen_wilson")
+class gen_wilson:
+    params = dict(grid_shape=GRID_SHAPE)
+    lets = dict(R="grid_shape[0]", C="grid_shape[1]")
+    ghost_after = {"visited[start_coord[0], start_coord[1]] = True": {"g_root": "start_coord"}}
+    ensures = {
+        "C01.shape": "result.connection_list.shape == (2, R, C)",
+        "C01.wf": "wf(result)",
+        "C01.spanning.count": "count(result) == R * C - 1",
+        "C01.spanning.connected": "forall(lambda i, j: reach(result, final(g_root), (i, j)), (0, R), (0, C))",
+        "C12.flag": "result.generation_meta['fully_connected'] == True",
+    }
+    loops = {
+        0: Loop(
+            head="while not visited.all()",
+            havoc=dict(connection_list=T.GridT("bool", [2, None, None], count=True), visited=T.GridT("bool", [None, None], count=True)),
+            inv=_W_TREE_OUTER,
+            lemmas=["reach_trans(maze_of(connection_list))"],
+        ),
+        1: Loop(
+            head="while not visited[current[0], current[1]]",
+            havoc=dict(path=T.ListT(T.Coord), current=T.Coord),
+            inv=_W_PATH,
+        ),
+        2: Loop(
+            head="for i, p in enumerate(path)",
+            havoc=dict(loop_exit=T.NoneT()),
+            inv={"E.not-found-yet": "forall(lambda t: path[t][0] != next_cell[0] or path[t][1] != next_cell[1], (0, _k))"},
+        ),
+        3: Loop(
+            head="for i in range(len(path) - 1)",
+            havoc=dict(connection_list=T.GridT("bool", [2, None, None], count=True), visited=T.GridT("bool", [None, None], count=True)),
+            inv={
+                "W.shape": _W_TREE_OUTER["W.shape"],
+                "W1.wf": _W_WF,
+                # bits join two visited cells, except the one edge whose far end path[_k] is still to be marked
+                "T2.down": "forall(lambda i, j: implies(connection_list[0, i, j], (visited[i, j] and visited[i + 1, j])"
+                " or (_k >= 1 and ((i == path[_k - 1][0] and j == path[_k - 1][1] and i + 1 == path[_k][0] and j == path[_k][1])"
+                " or (i == path[_k][0] and j == path[_k][1] and i + 1 == path[_k - 1][0] and j == path[_k - 1][1])))), None, None)",
+                "T2.right": "forall(lambda i, j: implies(connection_list[1, i, j], (visited[i, j] and visited[i, j + 1])"
+                " or (_k >= 1 and ((i == path[_k - 1][0] and j == path[_k - 1][1] and i == path[_k][0] and j + 1 == path[_k][1])"
+                " or (i == path[_k][0] and j == path[_k][1] and i == path[_k - 1][0] and j + 1 == path[_k - 1][1])))), None, None)",
+                "T3.count": "count(connection_list) == count(visited) - 1",
+                "T.marked": "forall(lambda t: visited[path[t][0], path[t][1]], (0, _k))",
+                "T.unmarked": "forall(lambda t: not visited[path[t][0], path[t][1]], (_k, len(path) - 1))",
+                "T.last-visited": "visited[path[len(path) - 1][0], path[len(path) - 1][1]]",
+                "W4.root": _W_TREE_OUTER["W4.root"],
+                "W5.visited-in-grid": _W_TREE_OUTER["W5.visited-in-grid"],
+                # old tree cells still reach the root; freshly marked path cells reach the current tip path[_k]
+                "T4.reach": f"forall(lambda i, j: implies(visited[i, j], reach({_MW}, g_root, (i, j))"
+                f" or exists(lambda t: path[t][0] == i and path[t][1] == j and reach({_MW}, path[_k], (i, j)), (0, _k))), (0, grid_shape[0]), (0, grid_shape[1]))",
+            },
+            lemmas=[
+                "reach_mono(maze_of(prev(connection_list)), maze_of(connection_list))",
+                "reach_trans(maze_of(connection_list))",
+                "reach_sym(maze_of(connection_list))",
+            ],
+        ),
+    }
+    exit_lemmas = ["count_lemma(final(visited), R, C)"]
+    result = T.RecT(
+        "LatticeMaze",
+        connection_list=T.GridT("bool", [2, None, None], count=True),
+        generation_meta=T.PyDictT(func_name=T.Const("gen_wilson"), fully_connected=T.Const(True)),
+    )
+    props = ["C01", "C12", "C19"]
